@@ -97,7 +97,7 @@ func (s *sys) close() {
 // send one command on connection i (1-based) and read exactly one reply
 func (s *sys) do(st step) impl.Reply {
 	c := s.conns[st.conn-1]
-	c.SetDeadline(time.Now().Add(2 * time.Second))
+	c.SetDeadline(time.Now().Add(30 * time.Second))
 	if _, err := c.Write(respcodec.EncodeCommand(st.argv)); err != nil {
 		return impl.Reply{K: "noreply", E: err.Error()}
 	}
